@@ -108,6 +108,49 @@ fn main() {
             cases::sweep(&mut ctx, &b, &p, &mut rng, Some(bd));
         }
     }
+    // thread-count independence: the honest open -> verify round trip, the prover's intermediate
+    // polynomials and the verifier's intermediate scalars inside explicit rayon pools (the chunked
+    // helpers of utils/arithmetic.rs split by `rayon::current_num_threads()`); the model's answers do
+    // not depend on the pool
+    let pools: &[usize] = if ctx.quick() { &[1, 2, 3, 5, 6] } else { &[1, 2, 3, 5, 6, 7, 12, 16] };
+    let npool_rand = if ctx.quick() { 5 } else if ctx.search() { 16 } else { 24 };
+    for &t in pools {
+        // the same base cases under every pool
+        let mut rng = ctx.rng("open-pools");
+        let mut bases = cases::pool_bases(&mut rng);
+        for i in 0..npool_rand {
+            bases.push(cases::random_base(&mut rng, i));
+        }
+        open::set_pool(t);
+        for (j, b) in bases.iter().enumerate() {
+            if let Some(p) = open::prove_base(&mut ctx, b, 200_000 + j as u32, 1, &mut rng) {
+                let vq = p.built.vq.clone();
+                let out = open::verify_case(&mut ctx, b, &p, &vq, &open::Tamper::None, "honest", true);
+                ctx.count(&format!("pool{t}:honest:{}", if out.accepted { "accepted" } else { "REJECTED" }));
+            }
+        }
+        open::set_pool(0);
+    }
+    // `eval_polynomial` itself (chunked by `rayon::current_num_threads()`) against its mirror
+    // `evalPolyThreads` for every pool size and lengths around the chunk boundaries
+    if !ctx.search() {
+        let mut rng = ctx.rng("evalt");
+        for &t in &[1usize, 2, 3, 4, 5, 6, 7, 8, 12, 16] {
+            for n in [0usize, 1, 2, 3, 4, 5, 6, 7, 8, 9, 11, 12, 13, 15, 16, 17, 24, 31, 32, 33, 64, 100, 128] {
+                use ff::Field;
+                let poly: Vec<midnight_curves::Fq> = (0..n).map(|_| midnight_curves::Fq::random(&mut rng)).collect();
+                let x = midnight_curves::Fq::random(&mut rng);
+                let ans = match open::eval_in_pool(t, &poly, x) {
+                    Ok(v) => mzkh::fe_hex(&v),
+                    Err(_) => "panic".to_string(),
+                };
+                ctx.case("evalt", n > 1, &format!("evalt {} {} {}", t, open::hexl(&poly), mzkh::fe_hex(&x)), &ans);
+                if ans != mzkh::fe_hex(&open::horner(&poly, x)) {
+                    ctx.count(&format!("evalt:pool{t}:differs-from-horner"));
+                }
+            }
+        }
+    }
     flush_oracle(&mut ctx);
     ctx.finish();
 }
